@@ -151,7 +151,8 @@ def run_case(ctx, kind, rng, idx):
     # --- public builder, dense and one sparse container --------------------
     cname = mc.CONTAINERS[1 + int(rng.integers(0, 7))]
     for tag, Cin in (() if san else (
-            ('dense', np.array(C)), (cname, mc.to_container(C, cname, rng)))):
+            ('dense', mc.relayout(rng, C)),
+            (cname, mc.to_container(C, cname, rng)))):
         fz = Frozen(Cin)
         try:
             with warnings.catch_warnings(record=True) as w:
@@ -173,8 +174,14 @@ def run_case(ctx, kind, rng, idx):
                           '%s result differs from dense' % cname)
     # --- both implementations ----------------------------------------------
     both = {}
+    # the count matrix in any memory layout (Fortran order as scipy's csc
+    # densifies, a transposed or strided view): same numbers, same estimate
     for tag, fn, arg in (('py', builders._prinz_mle_py, np.array(C)),
-                         ('compiled', builders._prinz_mle, Cf.copy())):
+                         ('compiled', builders._prinz_mle,
+                          mc.relayout(rng, Cf))):
+        ctx.seen('layouts', '%s/%s' % (tag, 'C' if arg.flags.c_contiguous
+                                       else ('F' if arg.flags.f_contiguous
+                                             else 'strided')))
         fz = Frozen(arg)
         try:
             with warnings.catch_warnings(record=True) as w:
